@@ -344,6 +344,7 @@ type Gen struct {
 	Len    func() int               // length of the next byte string
 	Mode   func(used uint32) uint32 // value of the next flag field given the bits its users test
 	Budget int                      // remaining number of composite nodes; generation gets terse when exhausted
+	Force  map[*Field]int           // vector fields that get exactly that many items (items themselves stay small)
 }
 
 func (g *Gen) u64() uint64 {
@@ -398,6 +399,15 @@ func (g *Gen) Fields(d *Decl, depth int) []*Val {
 		var v *Val
 		if f.Ty.Kind == KNat && !f.HasCond && UsedBits(d, f.Name) != 0 {
 			v = &Val{K: VNum, N: uint64(g.Mode(UsedBits(d, f.Name)))}
+		} else if n, forced := g.Force[f]; forced && f.Ty.Kind == KVector {
+			v = &Val{K: VVec}
+			saveMax, saveLen, saveForce := g.MaxVec, g.Len, g.Force
+			g.MaxVec, g.Len, g.Force = 2, func() int { return g.R.Intn(6) }, nil // the items (possibly of this very type) stay small
+			for k := 0; k < n; k++ {
+				g.Budget = 6
+				v.Items = append(v.Items, g.Val(f.Ty.Item, depth+2))
+			}
+			g.MaxVec, g.Len, g.Force = saveMax, saveLen, saveForce
 		} else {
 			v = g.Val(f.Ty, depth)
 		}
